@@ -15,7 +15,7 @@ class P:
             "register_infix_op / register_postfix_op (new names, re-registrations, overrides of built-ins, as the very first engine "
             "call or after first use; in half of the histories every call is made on one of three persistent threads), context bindings of the same names as functions or variables, and single-operator probes; every "
             "handler returns a constant naming itself, so the result says which handler ran; oracle: last registration of (kind, name), "
-            "else built-in, else error; context function first, a context variable never shadows. (b) precedence: 1-4 word operators "
+            "else built-in, else error; context function first, a context variable never shadows; a context function (or a registered one) that fails with an error of any of five kinds is the result of the call - nothing is invoked in its place. (b) precedence: 1-4 word operators "
             "registered with precedences drawn from values adjacent to every built-in level, 1 and 10^9, both associativities, then "
             "random trees over built-in and registered operators rendered with the minimal parentheses the registered table requires; "
             "oracle: the intended tree. Non-trivial = distinct history with >= 1 registration and >= 1 probe.")
@@ -144,6 +144,16 @@ class P:
         line(["H:31:r%s" % T(31), "H:33:r%s" % T(33), "H:43:qF%s.31.rn(0,1,0)" % hx("foo")],
              ["CF:1:%s:33" % hx("foo"), "REGF:%s:43" % hx("trig"), "EXEC:1:" + hx("foo(trig(), foo = 2)"), "EXEC:1:" + hx("foo()")],
              [None, None, ("foo(trig(), foo = 2)", tag(31)), ("foo()", tag(31))])
+        # the context's function shadows the registered one WHATEVER it returns: an error of any kind - the error of a nested
+        # evaluation handed on: an unregistered function, a division by zero, a parse error, a type error - is the call's result;
+        # the registered function of that name is not invoked in its place
+        for ek in ("e", "E1", "E2", "E3", "E4"):
+            for use in ("foo(1)", "foo()", "1 + foo(2)", "[foo(1)]", "x = foo(1); x"):
+                line(["H:31:r%s" % T(31), "H:33:%s" % ek], ["REGF:%s:31" % hx("foo"), "CF:1:%s:33" % hx("foo"), "EXEC:1:" + hx(use), "EXEC:2:" + hx("foo(1)")],
+                     [None, None, (use, evalspec.ERR), ("foo(1)", tag(31))])
+            # ... and the other way round: a registered function that fails is not replaced by anything either
+            line(["H:31:%s" % ek, "H:33:r%s" % T(33)], ["REGF:%s:31" % hx("foo"), "CF:2:%s:33" % hx("foo"), "EXEC:1:" + hx("foo(1)"), "EXEC:2:" + hx("foo(1)")],
+                 [None, None, ("foo(1)", evalspec.ERR), ("foo(1)", tag(33))])
         for kind_, reg_, regact, src in (("P", "REGP:%s:31" % hx("neg"), "U%s.32." % hx("neg"), "neg trig()"),
                                          ("S", "REGS:%s:31" % hx("bang"), "S%s.32." % hx("bang"), "trig() bang"),
                                          ("I", "REGI:%s:12c:0:0:31" % hx("hi"), "I%s.12c.0.0.32." % hx("hi"), "1 hi trig()"),
